@@ -116,8 +116,8 @@ def norm_pattern(pattern: AnyStr, normalize: bool | None, is_raw_chars: bool) ->
         elif is_raw_chars and m.group(3):
             try:
                 char = bytes([int(m.group(3)[2:], 16)]) if is_bytes else chr(int(m.group(3)[2:], 16))
-            except ValueError as e:
-                # Well formed escape, but not a valid code point (e.g. `\U00110000`).
+            except (ValueError, OverflowError) as e:
+                # Well formed escape, but not a valid code point (e.g. `\U00110000`, `\UFFFFFFFF`).
                 raise SyntaxError(
                     f"Could not convert character value {m.group(3)!r} at position {m.start(3):d}"
                 ) from e
